@@ -522,7 +522,10 @@ def block_diagonalize(
             if index[0] not in to_keep:
                 return x
             if isinstance(x, sympy.MatrixBase):
-                return x.multiply_elementwise(to_keep[index[0]])
+                # Broadcast like numpy does: a zero H_0 block has a 1x1 pattern.
+                return x.multiply_elementwise(
+                    sympy.Matrix(np.broadcast_to(to_keep[index[0]], x.shape))
+                )
             if sparse.issparse(x):
                 return x.multiply(to_keep[index[0]])
             return x * to_keep[index[0]]
@@ -532,7 +535,9 @@ def block_diagonalize(
                 return zero
             x = x[index] if isinstance(x, BlockSeries) else x
             if isinstance(x, sympy.MatrixBase):
-                return x.multiply_elementwise(to_eliminate[index[0]])
+                return x.multiply_elementwise(
+                    sympy.Matrix(np.broadcast_to(to_eliminate[index[0]], x.shape))
+                )
             if sparse.issparse(x):
                 return x.multiply(to_eliminate[index[0]])
             return x * to_eliminate[index[0]]
@@ -1579,7 +1584,8 @@ def _extract_diagonal(
     diags = []
     for block in h_0:
         if block is zero or block is np.ma.masked:
-            diags.append(np.array(0))
+            # Keep the symbolic dtype so that masks of zero blocks stay symbolic.
+            diags.append(np.array(sympy.S.Zero, dtype=object) if is_sympy else np.array(0))
             continue
         eigs = block.diagonal()
         if is_sympy:
